@@ -1,6 +1,7 @@
 package main
 
 import (
+	"time"
 	"bytes"
 	"context"
 	"fmt"
@@ -55,6 +56,8 @@ func (*c08) Impl(c Case) []string {
 				return c08DupDelete(atoi(t[2]), atoi(t[3]))
 			case "recommit":
 				return c08Recommit(atoi(t[2]), atoi(t[3]))
+			case "selfcopy":
+				return c08SelfCopy(atoi(t[2]))
 			case "mixed":
 				return c08Mixed(atoi(t[2]), atoi(t[3]), uint64(atoi(t[4])), t[5] == "1")
 			case "lin":
@@ -192,6 +195,57 @@ func c08Session(rounds, writers int) string {
 			if sha256Digest(data) != string(d) || desc.Digest != d || desc.Size != int64(len(data)) {
 				return fmt.Sprintf("stored-content-differs-from-digest commit-ok=%v len=%d want=%d", commitErr == nil, len(data), len(prefix))
 			}
+		}
+	}
+	return "ok"
+}
+
+// selfReader is content that comes out of the registry it is being pushed to: every Read first
+// makes a call on that registry (a streaming copy of a blob within one registry does this).
+type selfReader struct {
+	r    *ocimem.Registry
+	dg   ociregistry.Digest
+	data *bytes.Reader
+}
+
+func (s *selfReader) Read(p []byte) (int, error) {
+	if _, err := s.r.ResolveBlob(context.Background(), "a", s.dg); err != nil {
+		return 0, err
+	}
+	return s.data.Read(p)
+}
+
+// c08SelfCopy: pushes whose content reader calls the registry, while other goroutines use it too.
+// Every operation completes: an operation that can never return has no place in any linearization.
+func c08SelfCopy(rounds int) string {
+	ctx := context.Background()
+	for round := 0; round < rounds; round++ {
+		r := ocimem.New()
+		src := []byte("source-" + strconv.Itoa(round))
+		sd := pushBlobOK(r, "a", src)
+		content := bytes.Repeat([]byte("copy-"+strconv.Itoa(round)), 50)
+		desc := ociregistry.Descriptor{MediaType: "application/octet-stream", Digest: ociregistry.Digest(sha256Digest(content)), Size: int64(len(content))}
+		done := make(chan error, 2)
+		go func() {
+			_, err := r.PushBlob(ctx, "b", desc, &selfReader{r: r, dg: sd.Digest, data: bytes.NewReader(content)})
+			done <- err
+		}()
+		go func() {
+			_, err := r.PushManifest(ctx, "a", "t", []byte("manifest "+strconv.Itoa(round)), mtOpaque)
+			done <- err
+		}()
+		for i := 0; i < 2; i++ {
+			select {
+			case err := <-done:
+				if err != nil {
+					return "selfcopy-failed: " + err.Error()
+				}
+			case <-time.After(3 * time.Second):
+				return "not-linearizable: an operation never returned (PushBlob reading content that calls the registry, next to another operation)"
+			}
+		}
+		if _, err := r.ResolveBlob(ctx, "b", desc.Digest); err != nil {
+			return "selfcopy-blob-missing"
 		}
 	}
 	return "ok"
@@ -422,6 +476,7 @@ func (*c08) Gen(rng *RNG, tier string) []Case {
 		cases = append(cases, Case{Tag: "session", Lines: []string{fmt.Sprintf("conc session %d %d", sr, w)}})
 	}
 	cases = append(cases, Case{Tag: "dupdelete", Lines: []string{fmt.Sprintf("conc dupdelete %d 4", sr*3)}})
+	cases = append(cases, Case{Tag: "selfcopy", Lines: []string{"conc selfcopy 50"}})
 	for _, w := range []int{1, 2, 4} {
 		cases = append(cases, Case{Tag: "recommit", Lines: []string{fmt.Sprintf("conc recommit %d %d", sr, w)}})
 	}
@@ -551,7 +606,7 @@ func (*c08) Oracle(c Case, impl []string) []Failure {
 		fs = append(fs, Failure{Class: class, Oracle: "concurrent_" + t[1], Index: i, Expected: "ok", Observed: got, Detail: lastPanic})
 	}
 	// data races reported by the runtime during this process
-	if len(c.Lines) > 0 && c.Tag == "mixed" || c.Tag == "session" || c.Tag == "tagswap" || c.Tag == "recommit" {
+	if len(c.Lines) > 0 && c.Tag == "mixed" || c.Tag == "session" || c.Tag == "tagswap" || c.Tag == "recommit" || c.Tag == "selfcopy" {
 		fs = append(fs, c08RaceReports(c)...)
 	}
 	return fs
